@@ -613,3 +613,4 @@ UNITS = [ServerCallMethod, ServerCallMethodTyped, ServeClient, ProxyCallMethod, 
          NamespaceAttr, NamespaceSetAttr, NamespaceDelAttr] + PROXY_METHODS + [ServerCreate, ServerCreateBadArgs, ServerCreateTyped, ServerCreateCallable, Managed, ManagedOutside, C14Lemma]
 SCENARIOS = [('', 'replay/scenarios/c14_proxy_vs_direct.py')]
 BOUNDED = [{'function': 'operation sequences through several proxies / threads / a child process', 'method': 'runtime scenario replay/scenarios/c14_proxy_vs_direct.py (differential against local objects)', 'bound': '6 seeds x 60 operations x 3 object kinds + fixed Value/Namespace/managed()/thread/child script', 'counted_as_proved': False}]
+THOROUGH_SCENARIOS = [('', 'replay/scenarios/c14_proxy_vs_direct.py', (6, 30, 150), 600)]
